@@ -237,15 +237,24 @@ func connector(name string) func() ro.Subject[int] {
 // api=config uses ShareWithConfig; api=share / sharereplay<N> / sharereplayZ<N> use the aliases
 // (the flags and connector of the case line must then be the ones the alias fixes).
 func buildShared(api, conn, flags string, src ro.Observable[int]) ro.Observable[int] {
+	op := buildShareOp(api, conn, flags)
+	if op == nil {
+		return nil
+	}
+	return op(src)
+}
+
+// the operator VALUE (twin=1 applies it to a second source as well)
+func buildShareOp(api, conn, flags string) func(ro.Observable[int]) ro.Observable[int] {
 	switch {
 	case api == "share":
-		return ro.Share[int]()(src)
+		return ro.Share[int]()
 	case strings.HasPrefix(api, "sharereplayZ"):
 		n, _ := strconv.Atoi(strings.TrimPrefix(api, "sharereplayZ"))
-		return ro.ShareReplayWithConfig[int](n, ro.ShareReplayConfig{ResetOnRefCountZero: true})(src)
+		return ro.ShareReplayWithConfig[int](n, ro.ShareReplayConfig{ResetOnRefCountZero: true})
 	case strings.HasPrefix(api, "sharereplay"):
 		n, _ := strconv.Atoi(strings.TrimPrefix(api, "sharereplay"))
-		return ro.ShareReplay[int](n)(src)
+		return ro.ShareReplay[int](n)
 	}
 	c := connector(conn)
 	if c == nil {
@@ -256,7 +265,7 @@ func buildShared(api, conn, flags string, src ro.Observable[int]) ro.Observable[
 		ResetOnError:        strings.Contains(flags, "E"),
 		ResetOnComplete:     strings.Contains(flags, "C"),
 		ResetOnRefCountZero: strings.Contains(flags, "Z"),
-	})(src)
+	})
 }
 
 type shareEvent struct {
@@ -368,13 +377,44 @@ func runShareCase(c *Case) string {
 	if justSrc {
 		source = ro.Just(parseInts(strings.TrimPrefix(c.get("src", ""), "just:"))...)
 	}
-	shared := buildShared(c.get("api", "config"), c.get("conn", "publish"), flags, source)
-	if shared == nil {
+	shareOp := buildShareOp(c.get("api", "config"), c.get("conn", "publish"), flags)
+	if shareOp == nil {
 		return "res " + c.id + " unsupported"
 	}
+	shared := shareOp(source)
 	rec := &Recorder{}
 	setRecorder(rec)
 	defer setRecorder(nil)
+	// twin=1: the SAME operator value is applied to a second, never-ending source, and that twin has a subscriber of its
+	// own for the whole sequence: the two shared observables have nothing in common (a pipeline's sources are its own) —
+	// the twin's source is subscribed exactly once, its subscriber sees the twin's values only, and the sequence under
+	// test runs as it does alone.
+	twin := c.get("twin", "-") == "1"
+	var twinSubs, twinGot, twinBad int32
+	var twinDest ro.Observer[int]
+	var twinSub ro.Subscription
+	if twin {
+		twinSrc := ro.NewUnsafeObservable(func(dest ro.Observer[int]) ro.Teardown {
+			atomic.AddInt32(&twinSubs, 1)
+			twinDest = dest
+			return nil
+		})
+		behaviorInit := c.get("api", "config") == "config" && c.get("conn", "publish") == "behavior"
+		var sawInit int32
+		twinSub = shareOp(twinSrc).Subscribe(ro.NewObserver(func(v int) {
+			switch {
+			case v >= 9000:
+				atomic.AddInt32(&twinGot, 1)
+			case behaviorInit && v == 0 && atomic.CompareAndSwapInt32(&sawInit, 0, 1) && atomic.LoadInt32(&twinGot) == 0:
+				// the initial value of the twin's own behavior connector, replayed at subscription
+			default:
+				atomic.AddInt32(&twinBad, 1)
+			}
+		}, func(error) { atomic.AddInt32(&twinBad, 1) }, func() { atomic.AddInt32(&twinBad, 1) }))
+		if twinDest != nil {
+			twinDest.Next(9001)
+		}
+	}
 
 	var recs []*subRec
 	var subs []ro.Subscription
@@ -466,8 +506,20 @@ func runShareCase(c *Case) string {
 		}
 		src.mu.Unlock()
 	}
-	return fmt.Sprintf("res %s traces=%s up=%s drops=%s unhandled=%s escaped=%s uctx=%s", c.id, tr, joinOrDash(up),
+	res := fmt.Sprintf("res %s traces=%s up=%s drops=%s unhandled=%s escaped=%s uctx=%s", c.id, tr, joinOrDash(up),
 		renderHookList(rec.drops), renderHookList(rec.unhandled), joinOrDash(escaped), uctx)
+	if twin {
+		if twinDest != nil {
+			twinDest.Next(9002)
+		}
+		verdict := "ok"
+		if s, g, b := atomic.LoadInt32(&twinSubs), atomic.LoadInt32(&twinGot), atomic.LoadInt32(&twinBad); s != 1 || g != 2 || b != 0 {
+			verdict = fmt.Sprintf("subs:%d.got:%d.foreign:%d", s, g, b)
+		}
+		twinSub.Unsubscribe()
+		res += " twin=" + verdict
+	}
+	return res
 }
 
 // ---------- connectable ----------
@@ -652,6 +704,11 @@ func genShare(tier string, seed int64, only string) []*Case {
 	add := func(api, conn, flags, pre, ev string) {
 		id++
 		cases = append(cases, newCase(id, "kind", "share", "api", api, "conn", conn, "flags", flags, "pre", pre, "ev", ev))
+		if strings.Contains(ev, "S") && conn != "replay0" && (tier == "thorough" || id%6 == 0) { // (a replay buffer of size 0 hands every value to the dropped hook: the twin's values would show up in `drops`)
+			// the same operator value applied to a second source with a live subscriber of its own
+			id++
+			cases = append(cases, newCase(id, "kind", "share", "api", api, "conn", conn, "flags", flags, "pre", pre, "ev", ev, "twin", "1"))
+		}
 	}
 	for _, c := range shareCorpus {
 		pe := strings.SplitN(c[3], "|", 2)
